@@ -33,6 +33,7 @@ META = dict(
          "controlled scheduler here)")
 
 NT = 3
+NEST = 1000000
 _W = {}
 
 
@@ -45,10 +46,16 @@ def setup():
     tl = threading.local()
     seen = {}
 
+    nested = {}
+
     @ffi.callback("int(int)")
     def cb(arg):
         # runs in whichever thread calls it; records what that thread sees
         prev = getattr(tl, "value", None)
+        if arg >= NEST:
+            # re-enter the same cffi callback from Python code that HOLDS the GIL (ctypes.PYFUNCTYPE does
+            # not release it): the nested entry finds the thread state already current
+            nested["fn"](arg - NEST)
         tl.value = arg
         seen["last"] = {"ident": threading.get_ident(), "prev": prev,
                         "name_is_dummy": type(threading.current_thread()).__name__}
@@ -59,6 +66,7 @@ def setup():
     api.PyInterpreterState_ThreadHead.argtypes = [ctypes.c_void_p]
     api.PyThreadState_Next.restype = ctypes.c_void_p
     api.PyThreadState_Next.argtypes = [ctypes.c_void_p]
+    nested["fn"] = ctypes.PYFUNCTYPE(ctypes.c_int, ctypes.c_int)(int(ffi.cast("intptr_t", cb)))
     _W.update(ffi=ffi, lib=lib, cb=cb, tl=tl, seen=seen, api=api)
     _gc.disable()
 
@@ -103,6 +111,7 @@ class Sys(object):
         for i in range(NT):
             if self.alive[i]:
                 ops.append(("call", i))
+                ops.append(("ncall", i))       # a call whose Python body re-enters the callback with the GIL held
                 ops.append(("exit", i))
         ops.append(("pycall",))
         ops.append(("collect",))
@@ -119,11 +128,12 @@ class Sys(object):
             self.called[i] = False
             self.local[i] = None
             self.ident[i] = None
-        elif k == "call":
+        elif k in ("call", "ncall"):
             i = op[1]
             self.narg += 1
             seen.pop("last", None)
-            r = lib.ft_call(i, self.narg)
+            extra = NEST if k == "ncall" else 0
+            r = lib.ft_call(i, self.narg + extra) - extra
             s = seen.get("last")
             if r != self.narg + 1 or s is None:
                 return {"kind": "callback-did-not-run-or-wrong-result", "got": r}
@@ -135,7 +145,7 @@ class Sys(object):
             if s["ident"] == threading.get_ident():
                 return {"kind": "foreign-thread-has-main-thread-identity"}
             self.ident[i] = s["ident"]
-            self.local[i] = self.narg
+            self.local[i] = self.narg + extra
             if not self.called[i]:
                 self.zombies = 0            # a thread registering its state first reclaims the exited threads' states
             self.called[i] = True
